@@ -89,6 +89,9 @@ def run(tier, seed, replay=None):
         shapes.append(("tolast", [[0, 2], [4, 6], [11, 12]], 12, None))
         shapes.append(("beyond", [[0, 2], [4, 6], [20, 30]], 8, None))
         shapes.append(("adjacent", [[0, 2], [2, 4], [6, 8]], 10, None))
+        # bounds that do not fit a signed 32-bit sector number (the table holds unsigned 32-bit values): everything after sector 2 is encrypted
+        shapes.append(("beyond31", [[0, 2], [2 ** 31, 2 ** 31 + 5]], 8, None))
+        shapes.append(("beyond32", [[0, 2], [4, 5], [2 ** 32 - 2, 2 ** 32 - 1]], 8, None))
         shapes.append(("count0", [], 4, 0))
         shapes.append(("count1", [[0, 4]], 4, None))
         shapes.append(("count256", [[0, 1]] + [[2 * k, 2 * k + 1] for k in range(1, 256)], 520, None))
